@@ -56,6 +56,28 @@ def c18_static_search(ctx, run, LEAN, WORK):
                  "driver": out.strip()[:300], "static": True}]
     return []
 
+def c16_static_search(ctx, run, LEAN, WORK):
+    """name the sliced function / path / item at which the abstract interpreter stops (the witness is the code site)"""
+    import os, re
+    f = os.path.join(WORK, "C16", "SliceFailures.lean")
+    os.makedirs(os.path.dirname(f), exist_ok=True)
+    open(f, "w").write("import Secp.Proofs.Slices\nopen Secp.Proofs.Slices\n#eval allFailures\n#eval unjustified\n")
+    rc, out, err, _ = run(["lake", "build", "Secp.Proofs.Slices"], cwd=LEAN, timeout=1800)
+    if rc != 0:
+        return []
+    rc, out, err, _ = run(["lake", "env", "lean", f], cwd=LEAN, timeout=600)
+    cases = []
+    seen = set()
+    for m in re.finditer(r'\("([^"]+)", (\d+), (\d+)\)', out):
+        fn = m.group(1)
+        if fn in seen:
+            continue
+        seen.add(fn)
+        cases.append({"op": "slice-site %s path#%s item#%s" % (fn, m.group(2), m.group(3)),
+                      "impl": "in the regenerated field program of %s the abstract interpreter stops at item %s of path %s: a magnitude bound is exceeded, a comparison / serialisation reads a value that is not known to be normalised, a loop body does not return to its head state, or a callee's precondition fails" % (fn, m.group(3), m.group(2)),
+                      "driver": "expected: every path accepted (Secp.Props.C16.slices_ok)", "static": True})
+    return cases[:8]
+
 def c17_race_run(ctx, tier, seed):
     """fresh processes built with -race: N goroutines start together, answers compared with solo runs"""
     import os, subprocess, shutil, glob
@@ -211,11 +233,12 @@ PROPS = {
     },
     "C16": {
         "generator": "C16",
-        "level_text": "Static for-all over every execution path, with a soundness theorem down to limbs. tools/gotr T2 regenerates from /repo every path of addZ1AndZ2EqualsOne, addZ1EqualsZ2, addZ2EqualsOne, addGeneric, doubleZ1EqualsOne, doubleGeneric, AddNonConst (x3 alias patterns), DoubleNonConst (x2), ToAffine (with the inversion chain), isOnCurve, DecompressY, Inverse, SquareRootVal as lists of FieldVal operations and predicate tests. The abstract interpreter absPath over (magnitude, normalised?) rejects any NegateVal with too small a magnitude argument, any Add/MulInt exceeding magnitude 63, any Mul/Square operand above 8, any Equals/IsZero/IsOne/IsOdd on a value not known to be normalised and any use before definition; `decide +kernel` shows ALL paths pass and results end normalised. absPath_sound (proved from the C05 kernel theorems, i.e. about the regenerated limb kernels with Go wrap-around semantics): whenever absPath accepts a program, for ALL limb registers realising the input contract the limb-level execution and the value-level execution take the same branches and end in related states - no limb wraps, every comparison sees a normalised value, results depend only on the field values denoted. The same programs are run at value level by the driver and diffed against the real routines.",
-        "level_note": "Trusted: Lean kernel; tools/gotr T1/T2 (regenerated every run; kernels and programs executed against the real code). The routines' input contract (operands normalised; DecompressY's x of magnitude <= 8) is an assumption. The field segments of Verify/RecoverPublicKey/sign/Schnorr outside the point routines (a handful of Mul2/Normalize/Add calls) are covered by the hand-written models and the correspondence run, not by extracted paths.",
-        "technique": "Lean 4 `decide +kernel` of an abstract interpreter on regenerated path programs + differential run of the same programs",
-        "trusted_base": COMMON_TRUST + ["tools/gotr T2 path extraction (regenerated every run, executed against the real routines)"],
-        "assumptions": ["inputs to point routines are normalised (their documented contract)"],
+        "static_search": c16_static_search,
+        "level_text": "Static for-all over every execution path, with a soundness theorem down to limbs. (1) tools/gotr T2 regenerates from /repo every path of addZ1AndZ2EqualsOne, addZ1EqualsZ2, addZ2EqualsOne, addGeneric, doubleZ1EqualsOne, doubleGeneric, AddNonConst (x3 alias patterns), DoubleNonConst (x2), ToAffine (with the inversion chain), isOnCurve, DecompressY, Inverse, SquareRootVal as lists of FieldVal operations and predicate tests. (2) Pass T2s regenerates, for EVERY other function of the three packages whose body touches a FieldVal (46 today: Verify, sign, RecoverPublicKey, ParsePubKey, the serialisers, the prelude and loops of ScalarMultNonConst / ScalarBaseMultNonConst, ECDH, the crypto/elliptic adaptor, Schnorr sign/verify/parse, ecckd helpers), all its paths with the non-field code sliced away (such conditions fork without assumption: an over-approximation of the control flow). The abstract interpreter over (magnitude, normalised?) rejects any NegateVal with too small a magnitude argument, any Add/MulInt exceeding magnitude 63, any Mul/Square operand above 8, any Equals/IsZero/IsOne/IsOdd/PutBytes/Bytes/IsOddBit/IsGtOrEqPrimeMinusOrder on a value not known to be normalised, any use before definition, any loop body that does not return to a state covered by its head, any call whose contract precondition fails, any returned public key or result point that is not normalised; `decide +kernel` shows ALL paths of all entries pass and every call contract is justified by re-running the interpreter on the callee. absPath_sound (proved from the C05 kernel theorems, i.e. about the regenerated limb kernels with Go wrap-around semantics): whenever the interpreter accepts a program, for ALL limb registers realising the input contract the limb-level execution and the value-level execution take the same branches and end in related states - no limb wraps, every comparison sees a normalised value, results depend only on the field values denoted. The T2 programs are run at value level by the driver and diffed against the real routines.",
+        "level_note": "Trusted: Lean kernel; tools/gotr T1/T2/T2s (regenerated every run; kernels and T2 programs executed against the real code; T2s is a slicer whose fail-closed subset and path over-approximation are described in tools/gotr/slice.go). Input contracts are assumptions: operands of exported point routines and the coordinates inside a PublicKey are normalised (the second is also CHECKED wherever a key is constructed or returned), DecompressY's x has magnitude <= 8, table entries are normalised (C03's table theorem), *big.Int coordinates given to the elliptic adaptor are in [0,P) (C15's domain). absPath_sound is proved for T2 programs and applies to the loop-free, call-free segments of sliced paths (absS_plain); for loops and contract calls the composition argument (monotonicity of the interpreter) is stated in DESIGN.md, not yet proved in Lean.",
+        "technique": "Lean 4 `decide +kernel` of an abstract interpreter on regenerated path programs (point formulas: complete extraction; all other field-touching functions: sliced paths with contracts and loop heads) + soundness theorem to limb level + differential run of the T2 programs",
+        "trusted_base": COMMON_TRUST + ["tools/gotr T2 path extraction (regenerated every run, executed against the real routines)", "tools/gotr T2s slicer (regenerated every run; fail-closed on constructs that mention field values)"],
+        "assumptions": ["inputs to point routines are normalised (their documented contract)", "PublicKey coordinates are normalised (checked at every construction site)", "big.Int coordinates passed to the crypto/elliptic adaptor are in [0,P)"],
     },
     "C08": {
         "level_text": "Machine-checked theorems (Lean 4 kernel, Mathlib ZMod P with a Pratt-certificate proof that P is prime) for ALL byte strings about a hand-written model of ParsePubKey / Serialize* / schnorr.ParsePubKey: never panics; accepts exactly the valid SEC1 compressed/uncompressed/hybrid encodings of curve points with coordinates < P (using Euler's criterion for the square-root test and that -7 is not a cube mod P), returns that very point, never an off-curve key; each error kind names a rule really violated; all serialise/parse round trips incl. byte-for-byte reproduction of canonical inputs. Tied to the code by a correspondence run: all 256 tag bytes x both lengths, lengths 0..70, x >= P, non-residue x, flipped / mismatched-parity / off-curve y, bit flips; every op is also compared with a specification-level verdict computed independently of the model.",
